@@ -364,6 +364,8 @@ def constructor_state(R, E, F, state_adt, expect, rule):
                 ok = got == _NONE
             elif want == 'empty-queue':
                 ok = got is not None and got[0] == 'agg' and got[2] == 'new'
+            elif want[0] == 'variant':
+                ok = got is not None and got[0] == 'agg' and got[2] == want[1]
             elif want[0] == 'zero-id':
                 ok = got is not None and got[0] == 'agg' and got[3] and got[3][0][1] == ('const', 0)
             else:
